@@ -64,7 +64,8 @@ def info_terms(info):
 
 def run(src, q):
     shape = Shape.from_json(q['shape'])
-    w = scen.build_world(src, shape)
+    limit = src.int('limit', 1, None) if not q.get('other_state') else None
+    w = scen.build_world(src, shape, step_limit=limit, host_order=q.get('host_order'))
     A = scen.make_action(w, q['kind'], tuple(q['target']), q.get('name'), q.get('os'))
     r = dyn.Rec()
     r.q, r.w, r.A = q, w, A
